@@ -152,18 +152,45 @@ Proof.
 Qed.
 
 (* ------------------------------------------------------------------ the C09 statements *)
+(* (fix F21) what has become of the body reader when the handler returns: whether one of the handler's reads failed
+   (the reader remembers it), and the reader itself.  Same bodies as the definitions Properties/C09.v makes. *)
+Definition read_failed {A} (res : A + ioerr) : bool := match res with inr _ => true | inl _ => false end.
+Definition reader_after_handler (a : app) (r : request) (b : body) : bool * body :=
+  match behaviour_of a r with
+  | BAll | BFirst => let '(res, b') := read_to_end (body_fuel b) b [] in (read_failed res, b')
+  | BReadK k => let '(res, b') := read_k (body_fuel b) k b [] in (read_failed res, b')
+  | _ => (false, b)
+  end.
+(* the discard of the unread rest of the body, when the reader is dropped, reaches the end of the body *)
+Definition end_located (a : app) (r : request) (b : body) : bool :=
+  let '(failed, b') := reader_after_handler a r b in located failed b'.
+
+Lemma located_failed b : located true b = false.
+Proof. reflexivity. Qed.
+
+Lemma run_handler_located a r b : snd (run_handler a r b) = end_located a r b.
+Proof.
+  unfold run_handler, end_located, reader_after_handler.
+  destruct (behaviour_of a r) as [|k|st| | | | | |n]; try reflexivity.
+  - destruct (read_to_end (body_fuel b) b []) as [[data|e] b']; reflexivity.
+  - destruct (read_k (body_fuel b) k b []) as [[data|e] b']; reflexivity.
+  - destruct (read_to_end (body_fuel b) b []) as [[data|e] b']; reflexivity.
+Qed.
+
 Theorem keep_decision : forall a N ka segs buf r rest,
   read_request (S (length segs) + length (concat segs)) N [] segs = (RParsed buf r, rest) ->
   (te_present (q_hdrs r) && negb (te_final_chunked (q_hdrs r))) = false ->
   hook_of a r = HProceed ->
   let o := handle_one_request a N ka segs in
-  o_keep o = (o_ok o && negb (connection_close (q_hdrs r)) && ka && negb (existsb rs_close (o_resps o))).
+  o_keep o = (o_ok o && negb (connection_close (q_hdrs r)) && ka && negb (existsb rs_close (o_resps o)) &&
+              end_located a r (from_request (skipn (q_offset r) buf) rest (q_hdrs r))).
 Proof.
   intros a N ka segs0 buf r rest Hrr Hte Hhook o. subst o. unfold handle_one_request. unfold bytes in *.
   rewrite Hrr. rewrite Hte. rewrite Hhook.
-  destruct (run_handler a r (from_request (skipn (q_offset r) buf) rest (q_hdrs r))) as [[resps ok] rest'].
-  cbn [o_keep o_ok o_resps].
-  destruct ok, (connection_close (q_hdrs r)), ka, (existsb rs_close resps); reflexivity.
+  rewrite <- run_handler_located.
+  destruct (run_handler a r (from_request (skipn (q_offset r) buf) rest (q_hdrs r))) as [[[resps ok] rest'] loc].
+  cbn [o_keep o_ok o_resps snd].
+  destruct ok, (connection_close (q_hdrs r)), ka, (existsb rs_close resps), loc; reflexivity.
 Qed.
 
 Theorem keep_decision_hook : forall a N ka segs buf r rest,
@@ -171,16 +198,17 @@ Theorem keep_decision_hook : forall a N ka segs buf r rest,
   (te_present (q_hdrs r) && negb (te_final_chunked (q_hdrs r))) = false ->
   hook_of a r <> HProceed ->
   let o := handle_one_request a N ka segs in
-  o_keep o = (negb (connection_close (q_hdrs r)) && ka && negb (existsb rs_close (o_resps o))).
+  o_keep o = (negb (connection_close (q_hdrs r)) && ka && negb (existsb rs_close (o_resps o)) &&
+              located false (from_request (skipn (q_offset r) buf) rest (q_hdrs r))).
 Proof.
   intros a N ka segs0 buf r rest Hrr Hte Hhook o. subst o. unfold handle_one_request. unfold bytes in *.
   rewrite Hrr. rewrite Hte.
   destruct (hook_of a r) eqn:Eh.
   - exfalso. apply Hhook. reflexivity.
   - cbn [o_keep o_resps existsb rs_close orb negb].
-    destruct (connection_close (q_hdrs r)), ka; reflexivity.
+    destruct (connection_close (q_hdrs r)), ka, (located false _); reflexivity.
   - cbn [o_keep o_resps existsb rs_close orb negb].
-    destruct (connection_close (q_hdrs r)), ka; reflexivity.
+    destruct (connection_close (q_hdrs r)), ka, (located false _); reflexivity.
 Qed.
 
 Theorem rejected_closes : forall a N ka segs,
